@@ -426,7 +426,8 @@ def int_clip(x, val_min, val_max):
 def wrap(x, signed, n_word):
 
     m = (1 << n_word)
-    if n_word >= _n_word_max:
+    if n_word >= _n_word_max or np.asarray(x).dtype == object:
+        # python integers (values beyond 64 bits are handed over as objects whatever the word size)
         dtype = object
         x = int_array(x).astype(dtype) & (m - 1)
     else:
